@@ -18,6 +18,16 @@ def main():
         claims.update(getattr(mod, "CLAIMS", {}))
         engines += [e for e in getattr(mod, "ENGINES", []) if e["name"] not in [x["name"] for x in engines]]
         na.update(getattr(mod, "NOT_APPLICABLE", {}))
+    hooks = dict(manifest_table.HOOKS)
+    commits = list(hooks.get("source_commits", []))
+    for path in sorted(glob.glob(os.path.join(VERIF, "lib", "claims_*.py"))):
+        mod = importlib.import_module(os.path.basename(path)[:-3])
+        for c in getattr(mod, "HOOKS_SOURCE_COMMITS", []):
+            if c not in commits:
+                commits.append(c)
+        if getattr(mod, "HOOKS_ENABLE", None):
+            hooks["enable"] = mod.HOOKS_ENABLE
+    hooks["source_commits"] = commits
     import registry
     claims = {k: v for k, v in claims.items() if k in registry.CHECKS}
     checks = []
@@ -40,7 +50,7 @@ def main():
     m = {
         "version": 1,
         "setup_cmd": "bin/setup",
-        "hooks": manifest_table.HOOKS,
+        "hooks": hooks,
         "engines": engines,
         "checks": checks,
         "notes": manifest_table.NOTES,
